@@ -114,9 +114,40 @@ def split_sql(sql):
 
 
 def strip_comments(s):
-    s = re.sub(r'/\*.*?\*/', ' ', s, flags=re.S)
-    s = re.sub(r'--[^\n]*', ' ', s)
-    return s.strip()
+    """Remove comments, leaving quoted text alone."""
+    out = []
+    i = 0
+    n = len(s)
+    while i < n:
+        c = s[i]
+        if c == "'":
+            j = i + 1
+            while j < n:
+                if s[j] == "'":
+                    if j + 1 < n and s[j + 1] == "'":
+                        j += 2
+                        continue
+                    break
+                j += 1
+            out.append(s[i:j + 1])
+            i = j + 1
+        elif c == '"':
+            j = s.find('"', i + 1)
+            j = n - 1 if j < 0 else j
+            out.append(s[i:j + 1])
+            i = j + 1
+        elif s.startswith('/*', i):
+            j = s.find('*/', i + 2)
+            i = n if j < 0 else j + 2
+            out.append(' ')
+        elif s.startswith('--', i):
+            j = s.find('\n', i)
+            i = n if j < 0 else j
+            out.append(' ')
+        else:
+            out.append(c)
+            i += 1
+    return ''.join(out).strip()
 
 
 def unquote(v):
@@ -247,7 +278,9 @@ class Session:
         before = self.dirt()
         self.nstmt += 1
         ev = self.log('exec', client=client or '', n=serial, sql=raw[:200], kind='', before=before,
-                      prev=self.last_client or '', ext=extended)
+                      prev=self.last_client or '', ext=extended,
+                      vals={k: self.gucs.get(k, '') for k in ('application_name', 'TimeZone', 'DateStyle', 'client_encoding',
+                                                              'standard_conforming_strings', 'work_mem', 'statement_timeout')})
         if client:
             self.last_client = client
 
@@ -688,6 +721,14 @@ class Backend(threading.Thread):
                     continue
                 out = []
                 stmts = split_sql(sql)
+                if not balanced_quotes(sql):
+                    # the lexer fails on the whole query string: nothing is executed
+                    s.log('exec', client='', n=-1, sql=sql[:200], kind='error_syntax', before=s.dirt(), after=s.dirt(),
+                          prev=s.last_client or '', ext=False, vals={})
+                    if s.tx == 'T':
+                        s.tx = 'E'
+                    s.send(W.ErrorResponse('42601', 'unterminated quoted string') + W.Ready(s.tx))
+                    continue
                 if all(strip_comments(x) == '' for x in stmts):
                     rep, ctl = s.exec_stmt(sql)
                     out.extend(rep)
